@@ -97,6 +97,85 @@ def gridEq (a b : Grid) : Bool :=
   else if !(connEq a b) then false
   else true
 
+/-! ### backing state of the compared variables (numpy / dask)
+
+  `Grid.chunk()`, `open_grid(chunks=…)` … turn the variables into dask arrays.  xarray's
+  `array_equiv` first asks `lazy_array_equiv`: same object → True (the values are then trivially the
+  same, not modelled separately); different shapes → False; BOTH dask arrays with the SAME graph
+  name (dask token) → True *without looking at the values*; otherwise the values are compared.
+  The backing is therefore an input of what the code does — and the property holds only as long as
+  it cannot influence the result, i.e. as long as dask names are derived from the contents
+  (`namesFaithful`).  `Props/C20.lean`: `backing_irrelevant`, `eqB_values_only`,
+  `unfaithful_names_break`. -/
+
+inductive Backing where
+  | numpy
+  /-- dask array: graph name (hashed to a number by the harness) and chunk sizes along axis 0 -/
+  | dask (name : Nat) (chunks : List Nat)
+  deriving DecidableEq, Repr
+
+/-- `lazy_array_equiv` after the identity and shape tests: `some true` when both are dask arrays
+    with the same name, `none` (= compare the values) otherwise. -/
+def lazyEquiv : Backing → Backing → Option Bool
+  | .dask n _, .dask m _ => if n = m then some true else none
+  | _, _ => none
+
+/-- `array_equiv` of one variable: shape test, lazy shortcut, else the value comparison. -/
+def varEqB (shapeEq : Bool) (ba bb : Backing) (valueEq : Bool) : Bool :=
+  if !shapeEq then false
+  else match lazyEquiv ba bb with
+    | some r => r
+    | none => valueEq
+
+/-- a grid together with how its three compared variables are held -/
+structure BGrid where
+  g : Grid
+  bLon : Backing := .numpy
+  bLat : Backing := .numpy
+  bConn : Backing := .numpy
+  deriving Repr
+
+def lonShapeEq (a b : Grid) : Bool := a.lon.length == b.lon.length
+def latShapeEq (a b : Grid) : Bool := a.lat.length == b.lat.length
+def connShapeEq (a b : Grid) : Bool :=
+  a.nFace == b.nFace && a.width == b.width && a.conn.length == b.conn.length
+
+def lonEqB (a b : BGrid) : Bool :=
+  varEqB (lonShapeEq a.g b.g) a.bLon b.bLon (arrEq valEq a.g.lon b.g.lon) && coordsEq a.g b.g
+def latEqB (a b : BGrid) : Bool :=
+  varEqB (latShapeEq a.g b.g) a.bLat b.bLat (arrEq valEq a.g.lat b.g.lat) && coordsEq a.g b.g
+def connEqB (a b : BGrid) : Bool :=
+  varEqB (connShapeEq a.g b.g) a.bConn b.bConn (connEq a.g b.g)
+
+/-- **Impl with backing** — `Grid.__eq__` (repaired connective) as xarray evaluates it on
+    numpy- or dask-backed variables. -/
+def gridEqB (a b : BGrid) : Bool :=
+  if a.g.spec != b.g.spec then false
+  else if !(lonEqB a b && latEqB a b) then false
+  else if !(connEqB a b) then false
+  else true
+
+/-- one variable: equal dask names (and equal shapes) only on equal values -/
+def faithful1 (shapeEq : Bool) (ba bb : Backing) (valueEq : Bool) : Bool :=
+  match lazyEquiv ba bb with
+  | some _ => !shapeEq || valueEq
+  | none => true
+
+/-- **dask names are faithful** for this pair: whenever two compared variables carry the same
+    dask name (and shape) their values are equal.  Decidable; the driver evaluates it on the names
+    and values observed on the real grids. -/
+def namesFaithful (a b : BGrid) : Bool :=
+  faithful1 (lonShapeEq a.g b.g) a.bLon b.bLon (arrEq valEq a.g.lon b.g.lon) &&
+  faithful1 (latShapeEq a.g b.g) a.bLat b.bLat (arrEq valEq a.g.lat b.g.lat) &&
+  faithful1 (connShapeEq a.g b.g) a.bConn b.bConn (connEq a.g b.g)
+
+def Backing.kind : Backing → String
+  | .numpy => "numpy"
+  | .dask _ _ => "dask"
+
+def BGrid.kind (a : BGrid) : String :=
+  if a.bLon.kind == a.bLat.kind && a.bLat.kind == a.bConn.kind then a.bLon.kind else "mixed"
+
 /-- **Impl as it stands in the snapshot** — `or` between the two coordinate comparisons. -/
 def gridEqAsIs (a b : Grid) : Bool :=
   if a.spec != b.spec then false
